@@ -291,6 +291,8 @@ class Shape:
         s = dotted(e)
         if s and s in self.recv:
             return self.recv[s]
+        if s in ('np.nan', 'np.inf', 'np.pi', 'np.NaN', 'np.e'):
+            return Q()
         if isinstance(e.value, ast.Name) and e.value.id == 'self' and not isinstance(env.get('self'), Rec):
             if e.attr in self.selfattrs:
                 return self.selfattrs[e.attr]
@@ -375,10 +377,25 @@ class Shape:
         if isinstance(le, SizeOf) or isinstance(re_, SizeOf):
             el = Q()
         elif isinstance(le, Q) and isinstance(re_, Q):
+            kilo = 0
+
+            def is_k(side):
+                return isinstance(side, ast.Constant) and isinstance(side.value, (int, float)) and not isinstance(side.value, bool) and side.value in (1000, 1000.0)
+            if isinstance(op, ast.Mult) and (is_k(e.left) or is_k(e.right)):
+                kilo = 1
+            elif isinstance(op, (ast.Div, ast.FloorDiv)) and is_k(e.right):
+                kilo = -1
+            elif isinstance(op, (ast.Div, ast.FloorDiv)) and is_k(e.left):
+                kilo = 1
             if isinstance(op, ast.Mult):
-                el = Q(qmul(le, re_).dim, le.tags if not re_.dim or re_.d().keys() <= {'F', 'ka', 'cnt'} else frozenset())
+                if le.poly and not re_.dim:
+                    el = le
+                elif re_.poly and not le.dim:
+                    el = re_
+                else:
+                    el = Q(qmul(le, re_).dim, le.tags | re_.tags)
             elif isinstance(op, (ast.Div, ast.FloorDiv)):
-                el = Q(qmul(le, re_, -1).dim, le.tags if not re_.dim else frozenset())
+                el = Q(qmul(le, re_, -1).dim, le.tags)
             elif isinstance(op, ast.Pow):
                 k = const_value(e.right)
                 el = Q(tuple((n, x * k) for n, x in le.dim)) if isinstance(k, int) else UNK
@@ -400,6 +417,10 @@ class Shape:
                         el = Q(base.dim, (le.tags & re_.tags) if (le.dim and re_.dim) else base.tags)
             else:
                 el = Q()
+            if kilo and isinstance(el, Q) and isinstance(op, (ast.Mult, ast.Div)):
+                d = el.d()
+                d['kilo'] = d.get('kilo', 0) + kilo
+                el = Q(tuple(d.items()), el.tags)
         elif isinstance(le, Ix) and isinstance(re_, Q) and not re_.dim:
             el = le if isinstance(op, (ast.Add, ast.Sub)) and lit and False else Q()
         elif isinstance(le, Q) and not le.dim and isinstance(re_, Ix):
@@ -411,7 +432,7 @@ class Shape:
                 rt = getattr(re_, 'tag', None)
                 if lt and rt and lt[0] == 'argmax' and rt[0] == 'argmin' and lt[1] is rt[1]:
                     tags = frozenset({'p2t'})
-                el = Q(D(**{'d' + str(le.space): 1}), tags)
+                el = Q(D(samp=1), tags) if le.space.kind == 'base' and le.space.key == 'Samp' else Q(D(**{'d' + str(le.space): 1}), tags)
             elif le.space is not re_.space and not is_unk(le.space) and not is_unk(re_.space) and isinstance(op, (ast.Add, ast.Sub)):
                 self.report('space', e, 'arithmetic between %s and %s' % (le, re_))
                 el = UNK
@@ -461,6 +482,7 @@ class Shape:
         axes = list(base.axes)
         pos = 0
         slots = []
+        comp_tags = []
         keep_sorted = base.sorted
         for i in idx_nodes:
             if isinstance(i, ast.Constant) and i.value is Ellipsis:
@@ -496,6 +518,9 @@ class Shape:
                 slots.append(('adv', []))
                 continue
             if isinstance(v, (Q, SizeOf)):
+                k = const_value(i)
+                if isinstance(k, int) and not is_unk(ax) and ax.kind == 'base' and ax.key in ('XY', 'PC'):
+                    comp_tags.append('%s:%d' % (ax.key.lower(), k))
                 slots.append(('adv', []))
                 continue
             if isinstance(v, Arr) and isinstance(v.elem, BoolT):
@@ -507,6 +532,8 @@ class Shape:
                 self.check_ix(node, ax, v.elem, i)
                 slots.append(('adv', list(v.axes)))
                 keep_sorted = False
+                if not is_unk(ax) and ax.kind == 'base':
+                    comp_tags.append('gather:%s' % ax)      # values looked up per element in a table over `ax`
                 continue
             if isinstance(v, Arr) and isinstance(v.elem, Q) and not v.elem.dim:
                 slots.append(('adv', list(v.axes)))
@@ -543,9 +570,12 @@ class Shape:
                 out.extend(s[1] for s in slots if s[0] == 'basic')
         else:
             out = [s[1] for s in slots]
+        el = base.elem
+        if comp_tags and isinstance(el, Q):
+            el = Q(el.dim, el.tags | set(comp_tags))
         if not out:
-            return base.elem
-        r = Arr(tuple(out), base.elem)
+            return el
+        r = Arr(tuple(out), el)
         r.sorted = keep_sorted and len(out) == 1
         return r
 
